@@ -287,6 +287,46 @@ Proof.
   intros c cfg H. apply calc_start_total. now apply (validate_positive c cfg H).
 Qed.
 
+(* using a loaded configuration does not change it *)
+Lemma start_block_pure : forall cfg n,
+  fst (use_chain cfg n) = cfg /\
+  List.length (snd (use_chain cfg n)) = n /\
+  (forall r, In r (snd (use_chain cfg n)) -> r = calc_start (cc_start cfg) (cc_interval cfg)).
+Proof.
+  intros cfg n. unfold use_chain. cbn [fst snd]. split; [reflexivity|]. split.
+  - apply repeat_length.
+  - intros r Hr. now apply repeat_spec in Hr.
+Qed.
+
+Lemma chain_cfg_eqb_eq : forall a b, chain_cfg_eqb a b = true <-> a = b.
+Proof.
+  intros [i1 c1 s1] [i2 c2 s2]. unfold chain_cfg_eqb. cbn [cc_interval cc_confs cc_start]. split.
+  - intro H. apply andb_prop in H as [H Hs]. apply andb_prop in H as [Hi Hc].
+    apply Z.eqb_eq in Hi, Hc, Hs. now subst.
+  - intros [= -> -> ->]. now rewrite !Z.eqb_refl.
+Qed.
+
+Lemma use_ok_model : forall c n, use_ok (model_chain c) (model_after (model_chain c) n) = true.
+Proof.
+  intros c n. unfold model_chain. destruct (validate c) as [cfg|] eqn:E; [|reflexivity].
+  unfold model_after, use_chain, use_ok. cbn [ca_cfg ca_rest_same ca_calcs].
+  assert (Hc : chain_cfg_eqb cfg cfg = true) by now apply chain_cfg_eqb_eq.
+  rewrite Hc. cbn [andb].
+  destruct (start_block_total _ _ E) as [z [Hz _]]. rewrite Hz.
+  apply forallb_forall. intros r Hr. apply repeat_spec in Hr. now subst r.
+Qed.
+
+Lemma use_ok_sound : forall cfg r af, use_ok (Some (cfg, r)) (Some af) = true ->
+  ca_cfg af = cfg /\ ca_rest_same af = true /\ (forall x, In x (ca_calcs af) -> x <> Panic).
+Proof.
+  intros cfg r af H. unfold use_ok in H. apply andb_prop in H as [H Hp]. apply andb_prop in H as [Hc Hr].
+  split; [now apply chain_cfg_eqb_eq|]. split; [assumption|].
+  intros x Hx. rewrite forallb_forall in Hp. specialize (Hp _ Hx). intros ->. discriminate.
+Qed.
+
+Lemma use_ok_needs_observation : forall cfg r, use_ok (Some (cfg, r)) None = false.
+Proof. reflexivity. Qed.
+
 Lemma old_validate_refuted :
   exists c cfg, old_validate c = Some cfg /\ cc_interval cfg < 1 /\
                 chain_ok c (old_model_chain c) = false.
@@ -410,13 +450,48 @@ Proof. exists 70000, 4464. vm_compute. repeat split; discriminate. Qed.
 
 Lemma jv_eqb_eq : forall a b, jv_eqb a b = true <-> a = b.
 Proof.
-  intros [x|x|x] [y|y|y]; cbn; split; try discriminate; try (intros [= ->]).
+  intros [x|x|x|x dx] [y|y|y|y dy]; cbn; split; try discriminate; try (intros [= ->]).
   - intro H. f_equal. lia.
   - apply Z.eqb_refl.
   - intro H. f_equal. now apply String.eqb_eq.
   - apply String.eqb_refl.
   - intro H. f_equal. now apply Bool.eqb_prop.
   - now destruct y.
+  - intro H. apply andb_prop in H as [H1 H2]. apply Z.eqb_eq in H1. apply Pos.eqb_eq in H2. now subst.
+  - subst. now rewrite Z.eqb_refl, Pos.eqb_refl.
+Qed.
+
+(* chain ids are compared as written: exactly *)
+Lemma compare_domain_id_exact : forall a b, compare_domain_id a b = true <-> a = b.
+Proof.
+  intros [x|x dx] [y|y dy]; cbn; split; try discriminate.
+  - intro H. f_equal. lia.
+  - intros [= ->]. apply Z.eqb_refl.
+  - intro H. apply andb_prop in H as [H1 H2]. apply Z.eqb_eq in H1. apply Pos.eqb_eq in H2. now subst.
+  - intros [= -> ->]. now rewrite Z.eqb_refl, Pos.eqb_refl.
+Qed.
+
+Lemma find_chain_sound : forall i shared s,
+  find_chain i shared = Some s -> In s shared /\ id_of s = Some i.
+Proof.
+  intros i shared s. induction shared as [|x r IH]; cbn [find_chain]; [discriminate|].
+  destruct (id_of x) as [j|] eqn:Ej.
+  - destruct (compare_domain_id i j) eqn:Ec.
+    + intros [= <-]. apply compare_domain_id_exact in Ec. subst j. split; [now left|assumption].
+    + intro H. destruct (IH H) as [A B]. split; [now right|assumption].
+  - intro H. destruct (IH H) as [A B]. split; [now right|assumption].
+Qed.
+
+Lemma find_chain_none : forall i shared,
+  find_chain i shared = None -> forall s, In s shared -> id_of s <> Some i.
+Proof.
+  intros i shared. induction shared as [|x r IH]; cbn [find_chain]; intros H s Hin; [destruct Hin|].
+  destruct (id_of x) as [j|] eqn:Ej.
+  - destruct (compare_domain_id i j) eqn:Ec; [discriminate|].
+    destruct Hin as [<-|Hin]; [|now apply IH].
+    rewrite Ej. intros [= ->]. assert (E : compare_domain_id i i = true) by now apply compare_domain_id_exact.
+    rewrite E in Ec. discriminate.
+  - destruct Hin as [<-|Hin]; [|now apply IH]. rewrite Ej. discriminate.
 Qed.
 
 Lemma opt_jv_eqb_eq : forall a b, opt_jv_eqb a b = true <-> a = b.
@@ -637,6 +712,42 @@ Proof.
   destruct (loadable locals shared) eqn:El; [|reflexivity].
   unfold loadable in El. rewrite forallb_forall in El. specialize (El _ Hin).
   rewrite Hi, Hf in El. now rewrite andb_false_r in El.
+Qed.
+
+(* a local chain merges with a shared entry only if their ids are equal as numbers *)
+Lemma process_ids_exact : forall locals shared outs, process locals shared = Some outs ->
+  forall c, In c locals -> exists i s, id_of c = Some i /\ find_chain i shared = Some s /\
+                                         In s shared /\ id_of s = Some i.
+Proof.
+  induction locals as [|c r IH]; intros shared outs Hp x Hin; [destruct Hin|].
+  cbn [process] in Hp.
+  destruct (id_of c) as [i|] eqn:Ei; [|discriminate].
+  destruct (negb (type_present c)); [discriminate|].
+  destruct (find_chain i shared) as [s|] eqn:Ef; [|discriminate].
+  destruct (process r shared) as [out|] eqn:Er; [|discriminate].
+  destruct Hin as [<-|Hin].
+  - exists i, s. destruct (find_chain_sound _ _ _ Ef) as [A B]. rewrite Ei. repeat split; assumption.
+  - now apply (IH shared out).
+Qed.
+
+Lemma merge_ok_ids_exact : forall locals shared outs, merge_ok locals shared (Some outs) = true ->
+  forall n c o, nth_error locals n = Some c -> nth_error outs n = Some o ->
+    (forall i, id_of c = Some i -> (forall s, In s shared -> id_of s <> Some i) ->
+       forall k, has k o = true -> has k c = true).
+Proof.
+  unfold merge_ok. induction locals as [|c r IH]; intros shared [|o outs] H; try discriminate.
+  - intros [|n] c o Hc; discriminate.
+  - cbn [entries_ok] in H. apply andb_prop in H as [H1 H2].
+    intros [|n] c' o' Hc Ho.
+    + injection Hc as <-. injection Ho as <-. intros i Hi Hno k Hk.
+      rewrite Hi in H1. destruct (find_chain i shared) as [s|] eqn:Ef.
+      * destruct (find_chain_sound _ _ _ Ef) as [A B]. exfalso. now apply (Hno s).
+      * unfold entry_ok in H1. apply andb_prop in H1 as [_ H3].
+        rewrite forallb_forall in H3.
+        destruct (lookup k o) as [v|] eqn:El; [|unfold has in Hk; rewrite El in Hk; discriminate].
+        apply lookup_some_in in El. specialize (H3 _ El). cbn [fst] in H3.
+        apply orb_prop in H3 as [H3|H3]; [assumption|]. unfold has in H3. cbn in H3. discriminate.
+    + cbn in Hc, Ho. now apply (IH shared outs H2 n).
 Qed.
 
 Lemma entries_ok_sound : forall locals shared outs, entries_ok locals shared outs = true ->
